@@ -4,6 +4,11 @@
  * Obligations: array sizes derive from the parameter objects; no invalid access; everything is freed (--memory-leak-check). */
 #include "verif_prelude.h"
 #include "template_macro.inc"
+#ifdef H_ALLOC_FFT
+static int32_t fft_N; static int fft_live, fft_bad;
+LagrangeHalfCPolynomial *new_LagrangeHalfCPolynomial_array(int32_t nbelts, const int32_t N) { if (nbelts != VERIF_K + 1 || N != fft_N) fft_bad++; fft_live++; return verif_alloc((size_t)nbelts * sizeof(LagrangeHalfCPolynomial)); }
+void delete_LagrangeHalfCPolynomial_array(int32_t nbelts, LagrangeHalfCPolynomial *obj) { if (nbelts != VERIF_K + 1) fft_bad++; fft_live--; free(obj); }
+#endif
 #include "extracted.inc"
 USE_DEFAULT_CONSTRUCTOR_DESTRUCTOR_IMPLEMENTATIONS1(LweSample, LweParams)
 USE_DEFAULT_CONSTRUCTOR_DESTRUCTOR_IMPLEMENTATIONS1(LweKey, LweParams)
@@ -75,6 +80,38 @@ void h_alloc_bk(void) {
     VERIF_SIZE_GUARD(bk.ks->ks[VERIF_K * N - 1][t - 1][(1 << bb) - 1].a, (size_t)n * sizeof(Torus32));
     VERIF_SIZE_GUARD(bk.bk[n - 1].all_sample[(VERIF_K + 1) * VERIF_L - 1].a[VERIF_K].coefsT, (size_t)N * sizeof(Torus32));
     destroy_LweBootstrappingKey(&bk);
+    VERIF_REACH();
+}
+#endif
+
+#ifdef H_ALLOC_FFT
+/* life cycle of the FFT-domain samples and of the TGSW key: TLweSampleFFT (k+1 Lagrange polynomials, b aliases a[k]), TGswSampleFFT ((k+1)l TLWE
+ * FFT samples, k+1 block pointers), TGswKey (its TLWE key embedded, `key` aliases it) -- through the real init_/destroy_, constructors,
+ * destructors and the real macro-generated new_/delete_ family.  The Lagrange polynomial objects themselves belong to the FFT processor
+ * (assumed): new_/delete_LagrangeHalfCPolynomial_array are allocation monitors that count and check the element count. */
+USE_DEFAULT_CONSTRUCTOR_DESTRUCTOR_IMPLEMENTATIONS1(TLweSampleFFT, TLweParams)
+USE_DEFAULT_CONSTRUCTOR_DESTRUCTOR_IMPLEMENTATIONS1(TGswSampleFFT, TGswParams)
+void h_alloc_fft(void) {
+    int32_t N; __CPROVER_assume(N >= 1 && N <= VERIF_NMAX);
+    TLweParams tlp; *(int32_t *)&tlp.N = N; *(int32_t *)&tlp.k = VERIF_K;
+    TGswParams gp; *(int32_t *)&gp.l = VERIF_L; *(const TLweParams **)&gp.tlwe_params = &tlp; *(int32_t *)&gp.kpl = (VERIF_K + 1) * VERIF_L;
+    fft_N = N; fft_live = fft_bad = 0;
+    TLweSampleFFT *t = new_TLweSampleFFT(&tlp);
+    VERIF_SIZE_GUARD(t->a, (size_t)(VERIF_K + 1) * sizeof(LagrangeHalfCPolynomial));
+    __CPROVER_assert(t->b == t->a + VERIF_K && t->k == VERIF_K, "FFT TLWE sample: b aliases a[k]");
+    delete_TLweSampleFFT(t);
+    __CPROVER_assert(fft_live == 0 && fft_bad == 0, "FFT TLWE sample: its k+1 Lagrange polynomials are allocated with the ring degree and released");
+    TGswSampleFFT *g = new_TGswSampleFFT(&gp);
+    VERIF_SIZE_GUARD(g->all_samples, (size_t)((VERIF_K + 1) * VERIF_L) * sizeof(TLweSampleFFT));
+    __CPROVER_assert(g->k == VERIF_K && g->l == VERIF_L, "FFT TGSW sample: shape stored");
+    for (int p = 0; p <= VERIF_K; p++) __CPROVER_assert(g->sample[p] == g->all_samples + p * VERIF_L, "FFT TGSW sample: block p starts at row p*l");
+    VERIF_SIZE_GUARD(g->all_samples[(VERIF_K + 1) * VERIF_L - 1].a, (size_t)(VERIF_K + 1) * sizeof(LagrangeHalfCPolynomial));
+    delete_TGswSampleFFT(g);
+    __CPROVER_assert(fft_live == 0 && fft_bad == 0, "FFT TGSW sample: every row's polynomials released");
+    TGswKey *k = new_TGswKey(&gp);
+    __CPROVER_assert(k->params == &gp && k->tlwe_params == &tlp && k->tlwe_key.params == &tlp && k->key == k->tlwe_key.key, "TGSW key: the embedded TLWE key of the ring parameters, `key` aliases its polynomials");
+    VERIF_SIZE_GUARD(k->key, (size_t)VERIF_K * sizeof(IntPolynomial)); VERIF_SIZE_GUARD(k->key[VERIF_K - 1].coefs, (size_t)N * sizeof(int32_t));
+    delete_TGswKey(k);
     VERIF_REACH();
 }
 #endif
